@@ -314,7 +314,13 @@ def run_check(chk, tier, replay=None):
     print("%s %s: %d cases (%d non-trivial), %d obligations (%d discharged), %d disagreements, %d oracle failures, %d known, %.0fs"
           % (chk.pid, tier, len(cases), nontriv, len(obl), len([o for o in obl if o["ok"]]), len(disagreements),
              len(failing), len(known_lines), time.time() - t0))
-    return 1 if reported else 0
+    if reported:
+        return 1
+    if any(l.startswith(("oracle exception", "extra() exception")) for l in lines_out):
+        # part of the check did not run: that is not a verdict in either direction
+        print("infrastructure failure: an oracle of this check raised an exception (printed above); the run is not a verdict")
+        return 2
+    return 0
 
 
 def replay(chk, path):
